@@ -1,6 +1,7 @@
 (* Proofs/ShippedAccept.v — every well-formed document of Spec/PageTreeSpec.v conforms, in the
    declarative semantics of Spec/Conforms.v, to the hand-written specification [spec_catalog]
    (which Proofs/ShippedFacts.v shows to be the dumped one). *)
+From PV Require Import Proofs.TypeCheckSound.
 From PV Require Import Spec.PageTreeSpec Proofs.ShippedApprox Proofs.ShippedKinds.
 
 (* ---------- induction over kids (a nested inductive type) ---------- *)
@@ -122,7 +123,7 @@ Hypothesis Hwf : wf_doc d.
 Let oc := emit_ctx d.
 Notation tc := spec_tctx.
 Notation opq := (shipped_opq_with nd).
-Notation A := (approx opq oc tc).
+Notation A := (approxg opq oc tc false).
 
 Let Hnd : NoDup (List.map fst oc) := proj1 Hwf.
 
@@ -153,7 +154,7 @@ Qed.
 
 Lemma name_is_ok n s : A n (OName s) (c_name_is s) = true.
 Proof.
-  apply (kind_sound nd oc tc (VNameIn [s])); [|discriminate].
+  apply (kind_sound nd oc tc false (VNameIn [s])); [|discriminate].
   simpl. rewrite bytes_eqb_refl. reflexivity.
 Qed.
 
@@ -237,7 +238,7 @@ Proof.
     fold (oref (kid_id k)). rewrite Hval. rewrite <- Hc. apply IH. lia. }
   assert (Hnamed : forall i c ks ex, k = KNode i c ks ex -> A n (oref (kid_id k)) (CNamed n_nonroot) = true).
   { intros i c ks ex Hk. destruct n as [|n]; [reflexivity|].
-    rewrite A_S. rewrite (A1_named opq oc tc _ _ n_nonroot spec_nonroot_rep) by reflexivity.
+    rewrite A_S. rewrite (A1_named opq oc tc _ _ _ n_nonroot spec_nonroot_rep) by reflexivity.
     rewrite <- A_S. unfold oref.
     change (rep_chk spec_nonroot_rep) with (CRep (TDict nonroot_ents None) None IAllowed).
     rewrite A_ref_plain by reflexivity. fold (oref (kid_id k)). rewrite Hval.
@@ -264,7 +265,7 @@ Lemma kids_array_accept n i ks (root : bool) :
     (c_plain (TArr (if root then kid_of_root else kid_of_nonroot) None)) = true.
 Proof.
   intros Hks IH. destruct n as [|n]; [reflexivity|]. unfold c_plain.
-  rewrite A_S, A1_direct by reflexivity. simpl negb. simpl pred_ok. simpl andb. simpl type_ok.
+  rewrite A_S, A1_direct by reflexivity. simpl negb. simpl pred_ok. simpl andb. simpl type_okg.
   apply forallb_forall. intros o Ho. apply in_map_iff in Ho as [x [<- Hx]].
   destruct (kid_ref_accept n i x (Hks x Hx)) as [H1 H2].
   - intros m Hm. apply IH; auto.
@@ -376,5 +377,5 @@ Proof.
 Qed.
 
 Theorem spec_accepts : conforms opq oc tc (emit_root d) spec_catalog.
-Proof. intros n. apply catalog_accept. Qed.
+Proof. intros n. rewrite approx_approxg. apply catalog_accept. Qed.
 End Accept.
